@@ -455,6 +455,11 @@ def dir_arg(it):
 
 
 def render_program(P, rule_order=None, case=None, instr_renderer=None):
+    pre = render_fns(P)
+    return pre + _render_program(P, rule_order, case, instr_renderer)
+
+
+def _render_program(P, rule_order=None, case=None, instr_renderer=None):
     blocks = {}
     order = []
     rules = list(P["rules"])
@@ -772,6 +777,17 @@ def gen_cascade_program(rng, isa=None):
                 else:
                     toks = [tok("id", "mvi", True), num_tok(rng, 7, True), tok("op", ",", False)] + name_tokens(lab, True)
                 items.insert(rng.randrange(at, len(items)), {"k": "instr", "toks": toks})
+    # user functions whose bodies read the address of the calling item or a label, called in operands
+    fns = []
+    if rng.random() < 0.3:
+        fns.append({"name": "ahead", "params": ["p"], "body": _cmp("add", var("$"), var("p"))})
+        fns.append({"name": "after", "params": ["p"], "body": _cmp("add", var(rng.choice(labels)), var("p"))})
+        at0 = min([i for i, it in enumerate(items) if it["k"] == "label"] + [len(items)])
+        for _ in range(rng.randrange(1, 4)):
+            f = rng.choice(fns)
+            call = [tok("id", f["name"], True), tok("op", "(", False), num_tok(rng, rng.choice([0, 1, 2, 7]), False, "dec"), tok("op", ")", False)]
+            head = rng.choice([[tok("id", "ldi", True)], [tok("id", "mvi", True), num_tok(rng, 7, True), tok("op", ",", False)]])
+            items.insert(rng.randrange(at0, len(items) + 1), {"k": "instr", "toks": head + call})
     for lab in pending:
         items.append({"k": "label", "lvl": 0, "name": lab})
     out = []
@@ -779,7 +795,10 @@ def gen_cascade_program(rng, isa=None):
         base = {"k": it["k"], "lvl": 0, "name": "", "e": {"k": "none"}, "toks": [], "w": -1, "es": [], "n": 0}
         base.update(it)
         out.append(base)
-    return {"rules": isa["rules"], "items": out}
+    P = {"rules": isa["rules"], "items": out}
+    if fns:
+        P["fns"] = fns
+    return P
 
 
 # ---------------------------------------------------------------------------
@@ -852,6 +871,23 @@ def gen_symbol_program(rng, maxdepth=3, allow_errors=True):
         if decls:
             head.append(_item(k="data", w=16, es=[{"k": "var", "lvl": 0, "path": rng.choice(decls).split(".")}]))
     return {"rules": [], "items": head + items}
+
+
+def gen_const_chain(rng, n, order):
+    """n global constants, each the next one plus one, declared dependents-first ("reverse"),
+    dependencies-first ("forward") or shuffled; the first one is emitted as data"""
+    decl = []
+    for i in range(n):
+        e = {"k": "num", "text": list(str(rng.randrange(0, 50)))} if i == n - 1 else \
+            {"k": "bin", "op": "add", "l": {"k": "var", "lvl": 0, "path": ["c%d" % (i + 1)]}, "r": {"k": "num", "text": ["1"]}}
+        decl.append(_item(k="const", lvl=0, name="c%d" % i, e=e))
+    if order == "forward":
+        decl.reverse()
+    elif order == "shuffled":
+        rng.shuffle(decl)
+    use = _item(k="data", w=16, es=[{"k": "var", "lvl": 0, "path": ["c0"]}])
+    items = [use] + decl if rng.random() < 0.5 else decl + [use]
+    return {"rules": [], "items": items}
 
 
 def move_free_constant(rng, P):
@@ -958,6 +994,15 @@ def gen_cond_program(rng):
             elif c < 0.78:
                 items.append(_item(k="label", lvl=0, name="L%d" % marker[0]))
                 items.append(mark())
+            elif c < 0.86:
+                # a nested symbol whose parent is whatever global symbol precedes the selected arm
+                nm = "n%d" % marker[0]
+                marker[0] += 1
+                if rng.random() < 0.5:
+                    items.append(_item(k="const", lvl=1, name=nm, e={"k": "num", "text": list(str(rng.choice([0, 3, 7])))}))
+                else:
+                    items.append(_item(k="label", lvl=1, name=nm))
+                    items.append(mark())
             elif depth < 2:
                 items.append(if_item(depth + 1))
             else:
@@ -1084,9 +1129,12 @@ def gen_macro_program(rng):
         name = "fn%d" % i
         params = ["p", "q"][:rng.choice([1, 2])]
         c = rng.random()
-        if c < 0.5:
+        if c < 0.4:
             body = {"k": "bin", "op": rng.choice(["add", "sub", "mul", "and"]), "l": var(params[0]),
                     "r": var(params[-1]) if len(params) > 1 else {"k": "num", "text": list(str(rng.randrange(1, 9)))}}
+        elif c < 0.55:
+            # a body that reads the address of the calling item or a label: nothing about it is known in advance
+            body = {"k": "bin", "op": rng.choice(["add", "sub"]), "l": var(rng.choice(["$", "lab1", "lab0"])), "r": var(params[0])}
         elif c < 0.8 and fnames:
             body = {"k": "call", "f": rng.choice(fnames), "args": [var(params[0])] * 1}
             # arity may be wrong on purpose sometimes
@@ -1109,16 +1157,20 @@ def gen_macro_program(rng):
     for k in range(nm):
         params = ["a", "b"][:rng.choice([1, 2])]
         lines = []
+        def has_imm(ops):
+            return any(o[0] == "sub" and any(r["pat"][0]["lc"] == "%" for r in o[1]["rules"]) for o in ops)
+        immrules = [(r, ops) for r, ops in base if has_imm(ops)]
         for j in range(rng.randrange(1, 4)):
-            if rng.random() < 0.12:
+            if rng.random() < (0.3 if j == 0 and immrules else 0.12):
                 lines.append({"k": "label", "name": "m%d_%d" % (k, j), "toks": []})
                 continue
             pool = base + [(m["rule"], m["ops"]) for m in macros if rng.random() < 0.5]
             if not pool:
                 break
-            rule, ops = rng.choice(pool)
             labs = [l["name"] for l in lines if l["k"] == "label"]
-            toks = instantiate(rng, rule, ops, labs + ["lab0"], [])
+            # a block-local label named inside a sub-rule operand: resolved where the block is, not where the rule is
+            rule, ops = rng.choice(immrules) if (labs and immrules and rng.random() < 0.6) else rng.choice(pool)
+            toks = instantiate(rng, rule, ops, labs + ["lab0"], [], tuple(labs))
             # replace some expression operands (runs of non-literal tokens) by placeholders
             out, i2 = [], 0
             while i2 < len(toks):
